@@ -65,13 +65,15 @@ def step (st : Unit) (j : Json) : Unit × List String :=
       parseJWT Facts.C17.supportedAlgs E info
     | "ldproof" =>
       let L : LdEnv := { keyAlg := fun _ => if jStr v "keyalg" == "" then none else some (jStr v "keyalg"),
-                         verifiesDetached := fun _ _ => jBool v "verified" }
+                         verifiesDetached := fun _ _ => jBool v "verified",
+                         fits := fun _ _ => jBool v "fits" }
       ldProofVerify L "K" (jBool v "canon") (jNat v "parts") (jBool v "sigdecodes")
     | "vcld" =>
       let E : Env := { resolve := fun _ => if jBool v "keyfound" then some "K" else none, embeddedKey := fun _ => none,
                        verifies := fun _ _ _ => false, verifiesSplit := fun _ _ _ => false }
       let L : LdEnv := { keyAlg := fun _ => if jStr v "keyalg" == "" then none else some (jStr v "keyalg"),
-                         verifiesDetached := fun _ _ => jBool v "verified" }
+                         verifiesDetached := fun _ _ => jBool v "verified",
+                         fits := fun _ _ => jBool v "fits" }
       let didOf := fun (kid : String) => (kid.splitOn "#").headD ""
       vcJsonLdProof E L (jBool v "proofobj") (jStr j "issuer") (jStr v "vm") didOf (jBool v "validat") (jBool v "canon") (jNat v "parts") (jBool v "sigdecodes")
     | "parsejws" =>
@@ -94,8 +96,8 @@ def step (st : Unit) (j : Json) : Unit × List String :=
     | "dagtx" =>
       let kf := jBool v "keyfound"
       let E : Env := { resolve := fun _ => if kf then some "K" else none, embeddedKey := fun _ => if kf then some "E" else none,
-                       verifies := fun _ _ _ => jBool v "verified" && (!Facts.C17.dagChecksAlgFit || jBool v "fits"),
-                       verifiesSplit := fun _ _ _ => false }
+                       verifies := fun _ _ _ => jBool v "verified", verifiesSplit := fun _ _ _ => false,
+                       fits := fun _ _ => jBool v "fits" }
       dagTx Facts.C17.dagAllowedAlgs Facts.C17.dagRejectsPrivateJwk Facts.C17.dagStrictFraming E (jBool v "otherok") (jBool v "framing") info
     | "apitoken" =>
       let nf := jNat v "nfields"
